@@ -9,13 +9,14 @@
 //! This allocator serves blocks up to 2 KiB from per-thread size-class free
 //! lists, refilled by bumping through 1 MiB chunks obtained from the system
 //! allocator; larger blocks go straight to the system allocator. No locks: a
-//! freed block goes onto the free list of whichever thread frees it. Chunks
-//! are never returned (memory of a worker's free lists is abandoned when the
-//! worker exits; bounded by the total volume of states, a few GB at most).
+//! freed block goes onto the free list of whichever thread frees it. A
+//! thread's arena (free lists + bump chunk) is parked when the thread exits and
+//! handed to the next thread that needs one. Chunks are never returned.
 
 use std::alloc::{GlobalAlloc, Layout, System};
-use std::cell::UnsafeCell;
+use std::cell::Cell;
 use std::ptr;
+use std::sync::atomic::{AtomicBool, Ordering};
 
 const CLASS_SIZES: [usize; 20] = [16, 32, 48, 64, 80, 96, 112, 128, 160, 192, 224, 256, 320, 384, 448, 512, 768, 1024, 1536, 2048];
 const MAX_SMALL: usize = 2048;
@@ -37,14 +38,71 @@ static CLASS_OF_GRANULE: [u8; 129] = {
     t
 };
 
-struct Tl {
+struct Arena {
     free: [*mut u8; 20],
     bump: *mut u8,
     end: *mut u8,
 }
 
+// Arenas not owned by a live thread. A thread checks one out at its first
+// small allocation and returns it when it exits, so blocks freed by the
+// workers of one search level are reused by the workers of the next.
+static PARKED_LOCK: AtomicBool = AtomicBool::new(false);
+static mut PARKED: [*mut Arena; 1024] = [ptr::null_mut(); 1024];
+static mut PARKED_LEN: usize = 0;
+
+fn lock() {
+    while PARKED_LOCK.compare_exchange_weak(false, true, Ordering::Acquire, Ordering::Relaxed).is_err() {
+        std::hint::spin_loop();
+    }
+}
+
+fn unlock() {
+    PARKED_LOCK.store(false, Ordering::Release);
+}
+
+unsafe fn checkout() -> *mut Arena {
+    lock();
+    let len = ptr::addr_of!(PARKED_LEN).read();
+    let a = if len > 0 {
+        ptr::addr_of_mut!(PARKED_LEN).write(len - 1);
+        (ptr::addr_of!(PARKED) as *const *mut Arena).add(len - 1).read()
+    } else {
+        ptr::null_mut()
+    };
+    unlock();
+    if !a.is_null() {
+        return a;
+    }
+    let a = System.alloc(Layout::new::<Arena>()) as *mut Arena;
+    if !a.is_null() {
+        a.write(Arena { free: [ptr::null_mut(); 20], bump: ptr::null_mut(), end: ptr::null_mut() });
+    }
+    a
+}
+
+struct Holder(Cell<*mut Arena>);
+
+impl Drop for Holder {
+    fn drop(&mut self) {
+        let a = self.0.replace(ptr::null_mut());
+        if a.is_null() {
+            return;
+        }
+        unsafe {
+            lock();
+            let len = ptr::addr_of!(PARKED_LEN).read();
+            if len < 1024 {
+                (ptr::addr_of_mut!(PARKED) as *mut *mut Arena).add(len).write(a);
+                ptr::addr_of_mut!(PARKED_LEN).write(len + 1);
+            }
+            unlock();
+        }
+    }
+}
+
 thread_local! {
-    static TL: UnsafeCell<Tl> = const { UnsafeCell::new(Tl { free: [ptr::null_mut(); 20], bump: ptr::null_mut(), end: ptr::null_mut() }) };
+    static TL: Holder = const { Holder(Cell::new(ptr::null_mut())) };
 }
 
 pub struct Pool;
@@ -54,6 +112,21 @@ fn class_of(size: usize) -> usize {
     CLASS_OF_GRANULE[(size + 15) >> 4] as usize
 }
 
+/// The calling thread's arena (checked out on first use), or null if the
+/// thread's TLS is already torn down or no memory is left.
+#[inline]
+unsafe fn arena() -> *mut Arena {
+    TL.try_with(|h| {
+        let mut a = h.0.get();
+        if a.is_null() {
+            a = checkout();
+            h.0.set(a);
+        }
+        a
+    })
+    .unwrap_or(ptr::null_mut())
+}
+
 unsafe impl GlobalAlloc for Pool {
     #[inline]
     unsafe fn alloc(&self, layout: Layout) -> *mut u8 {
@@ -61,34 +134,31 @@ unsafe impl GlobalAlloc for Pool {
             return System.alloc(layout);
         }
         let c = class_of(layout.size());
-        let r = TL.try_with(|tl| {
-            let tl = &mut *tl.get();
-            let head = tl.free[c];
-            if !head.is_null() {
-                // The first word of a free block links to the next one.
-                tl.free[c] = *(head as *mut *mut u8);
-                return head;
-            }
-            let sz = CLASS_SIZES[c];
-            if (tl.end as usize) - (tl.bump as usize) < sz || tl.bump.is_null() {
-                let chunk = System.alloc(Layout::from_size_align_unchecked(CHUNK, 4096));
-                if chunk.is_null() {
-                    return ptr::null_mut();
-                }
-                tl.bump = chunk;
-                tl.end = chunk.add(CHUNK);
-            }
-            let p = tl.bump;
-            tl.bump = p.add(sz);
-            p
-        });
-        match r {
-            Ok(p) => p,
-            // Thread-local storage already torn down: fall back to a block of
-            // the class size from the system (dealloc may later put it on a
-            // free list, so it must be at least that large).
-            Err(_) => System.alloc(Layout::from_size_align_unchecked(CLASS_SIZES[c], 16)),
+        let a = arena();
+        if a.is_null() {
+            // No arena (thread exiting): a block of the class size from the
+            // system; dealloc may later put it on a free list.
+            return System.alloc(Layout::from_size_align_unchecked(CLASS_SIZES[c], 16));
         }
+        let tl = &mut *a;
+        let head = tl.free[c];
+        if !head.is_null() {
+            // The first word of a free block links to the next one.
+            tl.free[c] = *(head as *mut *mut u8);
+            return head;
+        }
+        let sz = CLASS_SIZES[c];
+        if tl.bump.is_null() || (tl.end as usize) - (tl.bump as usize) < sz {
+            let chunk = System.alloc(Layout::from_size_align_unchecked(CHUNK, 4096));
+            if chunk.is_null() {
+                return ptr::null_mut();
+            }
+            tl.bump = chunk;
+            tl.end = chunk.add(CHUNK);
+        }
+        let p = tl.bump;
+        tl.bump = p.add(sz);
+        p
     }
 
     #[inline]
@@ -97,11 +167,12 @@ unsafe impl GlobalAlloc for Pool {
             return System.dealloc(p, layout);
         }
         let c = class_of(layout.size());
-        // If TLS is gone the block is simply abandoned.
-        let _ = TL.try_with(|tl| {
-            let tl = &mut *tl.get();
-            *(p as *mut *mut u8) = tl.free[c];
-            tl.free[c] = p;
-        });
+        let a = arena();
+        if a.is_null() {
+            return; // abandoned
+        }
+        let tl = &mut *a;
+        *(p as *mut *mut u8) = tl.free[c];
+        tl.free[c] = p;
     }
 }
